@@ -29,7 +29,7 @@
 (* everything the future depends on, reaching `snap' again proves that the *)
 (* canonical run never halts (`div' = TRUE).                               *)
 (***************************************************************************)
-EXTENDS Integers, Sequences, TLC, Cell, Json, IOUtils
+EXTENDS Integers, Sequences, FiniteSets, TLC, Cell, Json, IOUtils
 
 (* The cases and the bounds come from the environment of the TLC run.  (They  *)
 (* are definitions rather than CONSTANTS assigned in the .cfg file because   *)
